@@ -247,7 +247,7 @@ CROPS = [  # (crop, planting, weather, kind, note)
     ("Cotton", "04/15", "champion", "cd", "Zmax 2.0"),
     # thorough only below
     ("Potato", "04/15", "tunis", "cd", ""), ("PotatoGDD", "04/15", "tunis", "gdd", ""),
-    ("SugarBeetGDD", "04/15", "champion", "gdd", ""), ("Barley", "10/15", "tunis", "switch", "SwitchGDD=1, spans New Year"),
+    ("DryBeanGDD", "10/15", "tunis", "gdd", ""), ("Barley", "10/15", "tunis", "switch", "SwitchGDD=1, spans New Year"),
     ("Sorghum", "04/15", "champion", "cd", ""), ("Quinoa", "10/15", "tunis", "cd", ""),
 ]
 IRR = ["0", "1", "2", "3", "4", "5", "1b"]
@@ -541,7 +541,7 @@ def main():
     cases = nontrivial = 0
     try:
         ncrops = 8 if quick else len(CROPS)
-        nrot = 1 if quick else 5
+        nrot = 1 if quick else 3
         jobs = []
         cross_kinds = ["soil", "crop", "irr", "co2", "gw", "field", "iwc", "weather_df"]
         n = 0
@@ -557,7 +557,7 @@ def main():
                         if code == "3" and "irr" not in cross:
                             cross = cross[:1] + ["irr"]
                     else:
-                        cross = cross_kinds if r < 2 else [cross_kinds[(n + j) % len(cross_kinds)] for j in range(3)]
+                        cross = cross_kinds if r < 1 else [cross_kinds[(n + j) % len(cross_kinds)] for j in range(3)]
                     jobs.append({"cfg": cfg, "cross": cross, "sanity": not quick})
                     n += 1
         with mp.Pool(16, maxtasksperchild=8) as pool:
